@@ -117,6 +117,8 @@ fn diff_field(a: &Expect, b: &Expect) -> String {
 
 /// flag in `Case::prev`: the previous header carries the CIF source format (otherwise no format)
 const PREV_IS_CIF: u32 = 1 << 31;
+/// flag in `Case::prev`: the previous header is a plain-PTYPE one (no PLUSPTYPE, no OPPTYPE)
+const PREV_IS_PLAIN: u32 = 1 << 30;
 
 fn make_prev(options: u32, format_none: bool) -> hv::Picture {
     hv::Picture {
@@ -174,18 +176,25 @@ fn check_case(rep: &Report, c: &Case) {
     let start = w.nbits;
     match &c.h {
         H::S(h) => h.put(&mut w),
-        H::Std(h) => h.put(&mut w, c.scal, c.prev.unwrap_or(0) & !PREV_IS_CIF),
+        H::Std(h) => h.put(&mut w, c.scal, c.prev.unwrap_or(0) & !(PREV_IS_CIF | PREV_IS_PLAIN)),
     }
     let hdr_bits = w.nbits - start;
     w.put(SENTINEL, 32);
     w.put(0, 16);
     let verdict = match &c.h {
         H::S(h) => h.expect(),
-        H::Std(h) => h.expect(c.scal, c.prev.map(|o| (o & !PREV_IS_CIF, if o & PREV_IS_CIF != 0 { Some(Fmt::Cif) } else { None }))),
+        H::Std(h) => h.expect(c.scal, c.prev.map(|o| (o & !(PREV_IS_CIF | PREV_IS_PLAIN), if o & PREV_IS_CIF != 0 { Some(Fmt::Cif) } else { None }))),
     };
     let realign = (8 - c.phase % 8) % 8;
     let replay = json!({"kind": "header", "bits": hex(&w.bytes), "phase": c.phase, "stuffing": c.stuff, "sorenson": sorenson, "scalability": c.scal, "previous_options": c.prev, "header_bits": hdr_bits, "label": c.label});
-    let prev = c.prev.map(|o| make_prev(o & !PREV_IS_CIF, o & PREV_IS_CIF == 0));
+    let prev = c.prev.map(|o| {
+        let mut p = make_prev(o & !(PREV_IS_CIF | PREV_IS_PLAIN), o & PREV_IS_CIF == 0);
+        if o & PREV_IS_PLAIN != 0 {
+            p.has_plusptype = false;
+            p.has_opptype = false;
+        }
+        p
+    });
     let opts = options(sorenson, c.scal);
     let bytes = w.bytes.clone();
     let r = catch(|| {
@@ -600,6 +609,22 @@ pub fn run(tier: Tier) -> Report {
             plus(&mut h).rtype = subset % 3 == 0;
             plus(&mut h).trp = if subset % 2 == 0 { Some(subset as u16) } else { None };
             cases.push(Case { h: H::Std(h), scal: subset % 5 == 0, prev: Some(o | extra), phase: 0, stuff: 0, label: "inheritance" });
+        }
+    }
+    // inheritance from a *plain-PTYPE* previous header: unrestricted vectors, arithmetic coding and
+    // advanced prediction can be switched on by PTYPE bits 10-12 of a header without PLUSPTYPE, and
+    // a following UFEP = 000 header inherits them like it inherits from a PLUSPTYPE header
+    for subset in 0..8u32 {
+        let mut o = PREV_IS_PLAIN;
+        for (i, bit) in [O_UMV, O_SAC, O_AP].iter().enumerate() {
+            if subset >> i & 1 == 1 {
+                o |= bit;
+            }
+        }
+        for extra in [0u32, O_SPLIT | O_DOC] {
+            let mut h = ufep0.clone();
+            plus(&mut h).rtype = subset % 2 == 0;
+            cases.push(Case { h: H::Std(h), scal: false, prev: Some(o | extra), phase: 0, stuff: 0, label: "inheritance-from-plain-header" });
         }
     }
     // a plain-PTYPE header (CIF) after a header of the same format that had OPPTYPE-group options
